@@ -2,6 +2,7 @@
 (src/props/cNN.rs); this table only holds what the runner needs."""
 
 PROPS = {
+    "C04": dict(level="exploration", shards=16, thorough_layers=[]),
     "C19": dict(level="exploration", shards=16, thorough_layers=["miri"],
                 layer_cfg={"miri": dict(shards=8, timeout=1500)}),
     "C20": dict(level="exploration", shards=16, thorough_layers=["miri"],
